@@ -30,7 +30,11 @@ RULE = ("family pm/k: random general setups × 2 frequency pairs (envelope, spec
         "pairs just inside the box} × one (power, deff) scale pair log-uniform over 6 decades each; every other setup a 4×4 (6×6 "
         "thorough) grid for rates, efficiencies, Schmidt number, HOM visibility, two-source HOM of the setup against its rescaled copy "
         "(free functions, both orders); thresholds 1e-2/1e-4/0.25 × 14 envelope targets around the threshold and in [thr, sqrt(thr)); every 4th setup a sequence of 11 "
-        "(power, deff) variants down to 1e-6 mW / 1e-6 pm/V and differing in the 5th–8th digit, fresh JointSpectrum each, shuffled, re-checked")
+        "(power, deff) variants down to 1e-6 mW / 1e-6 pm/V and differing in the 5th–8th digit, fresh JointSpectrum each, shuffled, re-checked; "
+        "per setup 3 clones with the pump bandwidth log-uniform over 1e-20…1e-7 m (one in six 2–150 % of the pump wavelength): envelope "
+        "centre / half-span / full-span, pump_amp and spectral_width K ops, |jsa_raw| = 2^-½·|pm| and jsi_singles_raw = ½·fs at a pair whose "
+        "sum sits at half span; the c07 generator widens (each with probability 1/8) bandwidth 1e-20…1e-7 m, threshold 10^-0.05…10^-300, "
+        "power 1e-6…1e6 mW, deff 1e-4…1e4 pm/V, the three waists 2 µm…2 cm, crystal length 20 µm…0.3 m")
 RESIDUAL = ("finiteness inside the transmission window (non-vanishing of A1, A2, denom1·denom2, no overflow in exp) is checked by "
             "evaluation only; floating-point rounding is measured (linearity ≤ ~1e-15, invariance ≤ ~1e-13)")
 TRUSTED_EXTRA = ["tools/props/_pmtol.py: complex-aware comparison (|Δ| relative to the modulus / to the absolute quadrature sum)"]
